@@ -111,12 +111,6 @@ func emitEvalCases(r *Run, c evalCase, vars []envVar, vals map[string]*val.Val, 
 	if outs[1].Sx() != outs[0].Sx() {
 		r.Case(mk("evalsrc"), outs[1].Sx())
 	}
-	if vmModelReady {
-		r.Case(mk("vmsrc"), outs[2].Sx())
-		if outs[3].Sx() != outs[2].Sx() {
-			r.Case(mk("vmsrc"), outs[3].Sx())
-		}
-	}
+	r.Case(mk("vmsrc"), outs[2].Sx())
+	r.Case(mk("vmcsrc"), outs[3].Sx())
 }
-
-var vmModelReady = false
